@@ -65,34 +65,37 @@ func astWatchdog(field string) bool {
 			return true
 		}
 		ast.Inspect(f, func(n ast.Node) bool {
-			as, ok := n.(*ast.AssignStmt)
-			if !ok || len(as.Lhs) != 1 || len(as.Rhs) != 1 {
-				return true
-			}
-			lhs := exprStr(as.Lhs[0])
-			if strings.HasSuffix(lhs, ".EnableWatchdog") {
-				found, on = true, true // assigned outside the literal: assume the worst
-				return true
-			}
-			if !strings.HasSuffix(lhs, "."+field) {
-				return true
-			}
-			found = true
-			var cl *ast.CompositeLit
-			switch r := as.Rhs[0].(type) {
-			case *ast.UnaryExpr:
-				cl, _ = r.X.(*ast.CompositeLit)
+			switch x := n.(type) {
+			case *ast.AssignStmt:
+				for _, l := range x.Lhs {
+					if strings.HasSuffix(exprStr(l), ".EnableWatchdog") {
+						found, on = true, true // assigned outside the literal: assume the worst
+					}
+				}
+				// the field is given something that is neither a literal nor the result of a function of the package
+				// (whose literals are looked at below): assume the worst
+				if len(x.Lhs) == 1 && len(x.Rhs) == 1 && strings.HasSuffix(exprStr(x.Lhs[0]), "."+field) {
+					switch r := x.Rhs[0].(type) {
+					case *ast.UnaryExpr, *ast.CompositeLit:
+					case *ast.CallExpr:
+						if _, plain := r.Fun.(*ast.Ident); !plain {
+							found, on = true, true
+						}
+					default:
+						found, on = true, true
+					}
+				}
 			case *ast.CompositeLit:
-				cl = r
-			}
-			if cl == nil {
-				on = true
-				return true
-			}
-			for _, el := range cl.Elts {
-				if kv, ok := el.(*ast.KeyValueExpr); ok && exprStr(kv.Key) == "EnableWatchdog" {
-					if exprStr(kv.Value) != "false" {
-						on = true
+				// every sm.Client literal of the package (wherever it is built: in place or in a helper)
+				if exprStr(x.Type) != "sm.Client" {
+					return true
+				}
+				found = true
+				for _, el := range x.Elts {
+					if kv, ok := el.(*ast.KeyValueExpr); ok && exprStr(kv.Key) == "EnableWatchdog" {
+						if exprStr(kv.Value) != "false" {
+							on = true
+						}
 					}
 				}
 			}
